@@ -46,6 +46,7 @@ func main() {
 	repo := flag.String("repo", "/repo", "repository root")
 	out := flag.String("out", "/verif/.gen", "output directory")
 	yields := flag.Bool("yields", false, "insert a scheduling point (verifrt.Yield) at the entry of every library function that refers to a package-level variable")
+	yieldAll := flag.String("yieldall", "", "import-path suffix of a package in which every function gets a scheduling point at entry (C20: packages/cache)")
 	flag.Parse()
 	os.MkdirAll(*out, 0o755)
 	overlay := map[string]string{}
@@ -238,9 +239,64 @@ func VerifInitBuiltin(pkg *Package, builtin *types.Package, conf *Config, fresh 
 	srcImp := importer.ForCompiler(fset, "source", nil)
 	var rewrittenSites []string
 	var yieldSites []string
+	var execSeams []string
 	for _, p := range pkgs {
 		if strings.Contains(p.importPath, "/packages") {
-			continue // the importer/cache packages are driven by C20's own harness
+			// the importer/cache packages are driven by C20's own harness: no map-range rewrite; with
+			// -yieldall every function of the named package gets a scheduling point at entry
+			if *yieldAll != "" && strings.HasSuffix(p.importPath, *yieldAll) {
+				for i, f := range p.asts {
+					changed := false
+					// process seam: cmd.Run() becomes verifrt.Run(cmd), so that the harness can answer the
+					// listing command in-process (the default is still to run it)
+					ast.Inspect(f, func(n ast.Node) bool {
+						call, ok := n.(*ast.CallExpr)
+						if !ok || len(call.Args) != 0 {
+							return true
+						}
+						sel, ok := call.Fun.(*ast.SelectorExpr)
+						if !ok || sel.Sel.Name != "Run" {
+							return true
+						}
+						if id, ok := sel.X.(*ast.Ident); ok && id.Name == "cmd" {
+							pos := fset.Position(call.Pos())
+							call.Fun = &ast.SelectorExpr{X: ast.NewIdent("verifrt"), Sel: ast.NewIdent("Run")}
+							call.Args = []ast.Expr{ast.NewIdent("cmd")}
+							rel, _ := filepath.Rel(*repo, pos.Filename)
+							execSeams = append(execSeams, fmt.Sprintf("%s:%d", rel, pos.Line))
+							changed = true
+						}
+						return true
+					})
+					for _, d := range f.Decls {
+						fd, ok := d.(*ast.FuncDecl)
+						if !ok || fd.Body == nil {
+							continue
+						}
+						site := strings.TrimPrefix(p.importPath, modPath) + ":" + fd.Name.Name
+						call := &ast.ExprStmt{X: &ast.CallExpr{
+							Fun:  &ast.SelectorExpr{X: ast.NewIdent("verifrt"), Sel: ast.NewIdent("Yield")},
+							Args: []ast.Expr{&ast.BasicLit{Kind: token.STRING, Value: fmt.Sprintf("%q", site)}},
+						}}
+						fd.Body.List = append([]ast.Stmt{call}, fd.Body.List...)
+						yieldSites = append(yieldSites, site)
+						changed = true
+					}
+					if changed {
+						addImport(f, modPath+"/verifrt")
+						var b bytes.Buffer
+						if err := format.Node(&b, fset, f); err != nil {
+							gaps = append(gaps, fmt.Sprintf("print %s: %v", p.files[i], err))
+							continue
+						}
+						rel, _ := filepath.Rel(*repo, p.files[i])
+						dst := filepath.Join(*out, "rw_"+strings.ReplaceAll(rel, "/", "_"))
+						writeIfChanged(dst, b.Bytes())
+						overlay[p.files[i]] = dst
+					}
+				}
+			}
+			continue
 		}
 		hasRange := false
 		for _, f := range p.asts {
@@ -333,7 +389,7 @@ func VerifInitBuiltin(pkg *Package, builtin *types.Package, conf *Config, fresh 
 	data, _ := json.MarshalIndent(map[string]any{"Replace": overlay}, "", " ")
 	writeIfChanged(filepath.Join(*out, "overlay.json"), data)
 	meta, _ := json.MarshalIndent(map[string]any{
-		"instrumentation_gaps": gaps, "map_ranges_rewritten": rewrittenSites, "packages": len(pkgs), "yield_sites": yieldSites,
+		"instrumentation_gaps": gaps, "map_ranges_rewritten": rewrittenSites, "packages": len(pkgs), "yield_sites": yieldSites, "exec_seams": execSeams,
 	}, "", " ")
 	writeIfChanged(filepath.Join(*out, "ovgen_meta.json"), meta)
 }
@@ -430,8 +486,20 @@ package verifrt
 
 import (
 	"fmt"
+	"os/exec"
 	"sort"
 )
+
+// ExecHook, when set, answers a command instead of running it (C20: the listing command of the cache).
+var ExecHook func(cmd *exec.Cmd) error
+
+// Run runs cmd, or hands it to ExecHook.
+func Run(cmd *exec.Cmd) error {
+	if h := ExecHook; h != nil {
+		return h(cmd)
+	}
+	return cmd.Run()
+}
 
 // Sched, when set, is called at every scheduling point (entry of a library function that refers to a
 // package-level variable); the explorer uses it to hand control to another build.
